@@ -784,3 +784,21 @@ package meta
 //@   loop 5 invariant counters: counters_carried(pb, data)
 //@   ensures restores_counters: counters_carried(pb, data)
 //@   modifies *except storeFSM.all store.all
+
+// ---- C16: a cached credential is honoured only for the password hash the user has now ----
+// Authenticate may skip bcrypt on a cache hit, but the entry was derived from a particular stored hash (bhash).
+// A password change replaces the stored hash; an entry inserted by an Authenticate that was still running with
+// the old metadata (bcrypt takes tens of milliseconds) survives the pruning done when the new metadata arrived.
+// So success on the cached path needs the entry's bhash to be the user's current hash.
+//@ func (*Data).user
+//@   assumed
+//@   modifies nothing
+
+//@ func (*Client).Authenticate
+//@   props C16
+//@   nosafety
+//@   ghost checked_against_current_hash bool = false
+//@   at after bcrypt.CompareHashAndPassword#1: ghost checked_against_current_hash = callresult0 == nil
+//@   ghost hit_for_current_hash bool = false
+//@   at before Client.hashWithSalt#1: ghost hit_for_current_hash = au.bhash == userInfo.Hash
+//@   ensures old_credentials_stop_working: result1 == nil ==> checked_against_current_hash || hit_for_current_hash
